@@ -146,19 +146,36 @@ def run(chk, facts):
     try:
         frm = syn.one_fn("from", impl_of="CoreFunOp")
         disp = syn.one_fn("fmt", impl_of="CoreFunOp", trait="Display")
-        m1 = [n for n in walk(frm["body"]) if n.get("k") == "match"][0]
         m2 = [n for n in walk(disp["body"]) if n.get("k") == "match"][0]
-        t_from = {}
-        for a in m1["arms"]:
-            for alt in pat_alternatives(a["pat"]):
-                if alt.get("k") in ("ppath",):
-                    t_from[alt["p"].split("::")[-1]] = src(strip(a["body"]))
         t_disp = {}
         for a in m2["arms"]:
             for alt in pat_alternatives(a["pat"]):
                 if alt.get("k") in ("ppath",):
                     t_disp[alt["p"]] = src(strip(a["body"])).split("::")[-1]
         variants = [v["name"] for v in syn.enums["generate::ast::node::CoreFunOp"]["variants"]]
+        # CoreFunOp::from is folded over every name the Display table prints (and one that it does not): it must be the inverse of
+        # Display, however it is written (a match on the constants, a search over a list of all variants ..)
+        from .smalleval import SmallEval, NoEval
+        cvals = {}
+        for cname, cv in consts.items():
+            cvals[cname] = cv
+            cvals["::".join(cname.split("::")[-3:])] = cv
+            cvals["::".join(cname.split("::")[-2:])] = cv
+        printed = {"CoreFunOp::" + v: consts.get("check::context::function::python::" + t_disp.get("CoreFunOp::" + v, "?")) for v in variants}
+        ev_f = SmallEval(consts=cvals, methods={"to_string": lambda x: printed.get(x, "?")})
+        ev_f.const_nodes = {k_: c_["e"] for k_, c_ in syn.consts.items() if c_.get("e", {}).get("k") != "lit"}
+        t_from = {}
+        for v in variants:
+            try:
+                r_ = ev_f.call(frm, [printed["CoreFunOp::" + v]])
+                t_from[t_disp.get("CoreFunOp::" + v)] = r_[1] if isinstance(r_, tuple) and r_ and r_[0] == "Some" else str(r_)
+            except NoEval as ex:
+                t_from[t_disp.get("CoreFunOp::" + v)] = f"not evaluable ({ex})"
+        try:
+            none_ok = ev_f.call(frm, ["not_an_operator"]) is None
+        except NoEval:
+            none_ok = False
+        chk.ob("R-C17-3", "CoreFunOp::from:other-names", none_ok, "a name that is no operator method is no CoreFunOp" if none_ok else "CoreFunOp::from maps a name that is no operator method to an operator", facts.loc_of(frm))
         for v in variants:
             c = t_disp.get("CoreFunOp::" + v)
             back = t_from.get(c) if c else None
